@@ -508,6 +508,8 @@ def c11(run):
                 ps.add(body, exp, rec)
     for body, exp, rec in ga.builder_cases():
         ps.add(body, exp, rec)
+    for body, exp, rec in ga.stateful_closure_cases():
+        ps.add(body, exp, rec)
     ps.execute()
     # collect_const!: "an array whose length and contents equal collecting the same iterator" for every adapter chain
     # of the iterator-DSL grammar up to depth 2 (the descriptors of IterDsl.tla with the consumer `collect`)
